@@ -3,6 +3,8 @@ package props
 import (
 	"bytes"
 	"fmt"
+	banktypes "github.com/cosmos/cosmos-sdk/x/bank/types"
+	govtypes "github.com/cosmos/cosmos-sdk/x/gov/types"
 	"time"
 
 	"c4emc/explore"
@@ -154,6 +156,18 @@ func c13Events() []Ev {
 	evs := []Ev{{Name: "block+1s", Block: time.Second}, {Name: "block+40s", Block: 40 * time.Second},
 		{Name: "pool(A,p,10)", Build: func(v View) (sdk.Msg, string) {
 			return vtypes.NewMsgCreateVestingPool(harness.AddrS("A"), "p", sdk.NewInt(10), 5*time.Second, "t5"), "A"
+		}},
+		// ways to empty a pool: the pool record stays, so the denomination must stay too
+		{Name: "withdraw(A)", Build: func(v View) (sdk.Msg, string) {
+			return vtypes.NewMsgWithdrawAllAvailable(harness.AddrS("A")), "A"
+		}},
+		{Name: "send(A.p,all->fresh)", Build: func(v View) (sdk.Msg, string) {
+			rem, ok := poolRemainder(v, "A", "p")
+			_, to := freshAddr(v)
+			if !ok || to == "" {
+				return nil, ""
+			}
+			return vtypes.NewMsgSendToVestingAccount(harness.AddrS("A"), to, "p", rem, true), "A"
 		}}}
 	for _, p := range c13Payloads() {
 		for _, a := range c13Auths() {
@@ -162,6 +176,23 @@ func c13Events() []Ev {
 			// "partially valid + wrong authority" combinations; keep the full product.
 			evs = append(evs, Ev{Name: p.name + "@" + a.name, Gov: a.name == "gov", Build: func(v View) (sdk.Msg, string) { return p.mk(a.addr), a.signer }})
 		}
+	}
+	// proposals with two messages whose second fails on execution: x/gov drops the whole branch,
+	// so the accepted first update must leave no trace (not in the store and not anywhere else)
+	byName := map[string]c13Payload{}
+	for _, p := range c13Payloads() {
+		byName[p.name] = p
+	}
+	tooMuch := func(View) []sdk.Msg {
+		return []sdk.Msg{banktypes.NewMsgSend(harness.ModAddr(govtypes.ModuleName), harness.Addr("A"), sdk.NewCoins(sdk.NewCoin(harness.Denom, mustInt("1000000000000000000000000"))))}
+	}
+	for _, pn := range []string{"minter.UpdateParams(valid2)", "distr.UpdateParams(valid)", "vesting.UpdateDenom(newdenom)"} {
+		p := byName[pn]
+		if p.mk == nil {
+			panic("c13: no payload " + pn)
+		}
+		evs = append(evs, Ev{Name: "proposal[" + pn + "; bank.Send(gov->A, more than gov has)]@gov", Gov: true,
+			Build: func(v View) (sdk.Msg, string) { return p.mk(harness.GovAuthority()), "" }, Then: tooMuch})
 	}
 	return evs
 }
